@@ -157,4 +157,43 @@ theorem vacated_slot_lets_two_sends_share_a_user_data :
     s.kernel.map (·.key) = [0, 0] ∧ s.kernel.any (fun ko => !s.holds ko) = true := by
   decide
 
+-- the handler closes what it has to, once, and only its own connection --------------------------------------------------------------------
+
+/-- the shape of the io_uring handler's close paths (re-extracted on every run): one RequestClose per descriptor, timers
+polled, the socket shut down before the Close operation, shutdown requests name their connection -/
+theorem handler_close_shape :
+    Gen.uringOneCloseRequestPerDescriptor = 1 ∧ Gen.uringHandlerPollsTimers = 1 ∧ Gen.uringCloseShutsTheSocketDown = 1
+    ∧ Gen.uringShutdownRequestNamesItsConnection = 1 := by
+  decide
+
+/-- however descriptor numbers are reused and however late a shutdown request arrives: no connection is ever shut down by a
+request that was issued for another one -/
+theorem shutdown_requests_hit_only_their_connection (evs : List FdEv) :
+    (FdTable.run (Gen.uringShutdownRequestNamesItsConnection == 1) {} evs).wronglyClosed = [] := by
+  have hg : (Gen.uringShutdownRequestNamesItsConnection == 1) = true := by decide
+  rw [hg]
+  suffices h : ∀ (t : FdTable), t.wronglyClosed = [] → (FdTable.run true t evs).wronglyClosed = [] from h {} rfl
+  induction evs with
+  | nil => intro t h; exact h
+  | cons e es ih =>
+    intro t h
+    apply ih
+    cases e with
+    | registered fd => simp only [FdTable.step]; split <;> simp [h]
+    | closed fd => simp [FdTable.step, h]
+    | shutdownRequest fd tok =>
+      simp only [FdTable.step]
+      split
+      · exact h
+      · rename_i cur hc
+        by_cases hne : cur = tok
+        · simp [hne, h]
+        · simp [hne, h]
+
+/-- the earlier shape (the request named only the descriptor number): the connection that was given the number of a closed
+one is shut down by the late request of its predecessor - a fresh connection that never carries data -/
+theorem unnamed_shutdown_request_hits_the_next_connection :
+    (FdTable.run false {} [.registered 5, .closed 5, .registered 5, .shutdownRequest 5 1]).wronglyClosed = [2] := by
+  decide
+
 end Rzmq.C20
